@@ -87,6 +87,19 @@ def craft_3copies_fat32(sp, clusters=65530, spf2=512):
 def craft_ext_flags(sp, mirroring_off, active):
     sp.write(40, ((0x80 if mirroring_off else 0) | active).to_bytes(2, "little"))
 
+def craft_backup_last_reserved(sp):
+    """another formatter's reserved area: the backup boot sector in the LAST reserved sector (directly in front of the first
+    FAT copy), the information sector where it was - every field valid (each below the reserved count)"""
+    g = fatimg.Geom(sp.read(0, 512))
+    old = int.from_bytes(sp.read(50, 2), "little")
+    new = g.reserved - 1
+    sp.write(50, new.to_bytes(2, "little"))
+    bs = sp.read(0, g.bps)
+    if old:
+        sp.zero(old * g.bps, g.bps)
+    sp.zero(new * g.bps, g.bps)
+    sp.write(new * g.bps, bs)
+
 def craft_high_nibbles(sp, rng, same_in_all_copies):
     """non-zero reserved high nibbles in FAT32 entries (entry 0, the root chain, free, padding entries)"""
     g = fatimg.Geom(sp.read(0, 512))
@@ -424,6 +437,7 @@ def crafted_volumes(rng, tier):
         def fn(sp, act=act):
             craft_ext_flags(sp, True, act); craft_high_nibbles(sp, rng, False)
         add("fat32-2copies-mirroroff-active%d" % act, "b32", fn)
+    add("fat32-2copies-backup-in-last-reserved", "b32", craft_backup_last_reserved)
     def fn1(sp):
         craft_ext_flags(sp, True, 0); craft_high_nibbles(sp, rng, True)
     add("fat32-1copy-mirroroff", "b32-1", fn1)
